@@ -65,13 +65,61 @@ def items(tier, seed):
         out.append({'h': 'off', 'name': name, 'S': S, 'opts': dict(o), 'ml': False})
         if tier != 'quick':
             out.append({'h': 'off', 'name': name, 'S': S, 'opts': dict(o, lang='de'), 'ml': True})
+    for n in range(0, 4):
+        out.append({'h': 'nums', 'n': n})
     # vacuity twins: the same harness with the upper bound lowered by one must be refuted
     out.append({'h': 'off', 'name': 'twin', 'S': 'A $x', 'opts': {}, 'ml': False, 'twin': True})
     out.append({'h': 'off', 'name': 'twin2', 'S': 'A B', 'opts': {}, 'ml': False, 'twin': True})
     return out
 
 
+def build_nums(item):
+    """command line: the real write_output on a text of n characters with a symbolic position
+    list: the --nums file has exactly one line per character written to standard output, and
+    every line is the decimal number (negative entries: number followed by +)"""
+    import io
+    from vf import yal
+    n = item['n']
+    text = 'abcde'[:n]
+
+    def run(vals):
+        ft, fn = io.StringIO(), io.StringIO()
+        yal.tex2txt.write_output((text, list(vals)), ft, fn)
+        lines = fn.getvalue().split('\n')
+        if ft.getvalue() != text or len(lines) != n + 1 or lines[-1] != '':
+            return 'C01 --nums: %d characters written, %d lines of numbers' % (
+                len(ft.getvalue()), len(lines) - 1)
+        for v, ln in zip(vals, lines):
+            if ln != (str(abs(v)) + ('+' if v < 0 else '')):
+                return 'C01 --nums: entry %r written as %r' % (v, ln)
+        return None
+
+    def concrete(w):
+        return run([w.get('p%d' % i, 1) for i in range(n)])
+
+    def prop():
+        from vf import driver as D
+        vals = [D.fresh_int('p%d' % i) for i in range(n)]
+        for v in vals:
+            if not (-1000 <= v <= 1000):
+                return D.SKIP
+        ft, fn = io.StringIO(), io.StringIO()
+        yal.tex2txt.write_output((text, list(vals)), ft, fn)
+        with D.NoTracing():
+            m = D._model()
+            cv = [D._peek(v, m) for v in vals]
+            out = D._peek(fn.getvalue(), m)
+            lines = out.split('\n')
+            if len(lines) != n + 1:
+                return D.Fail('C01 --nums: %d lines for %d characters' % (len(lines) - 1, n),
+                              {'p%d' % i: c for i, c in enumerate(cv)})
+        return True
+    return prop, concrete
+
+
 def build(item):
+    if item['h'] == 'nums':
+        return build_nums(item)
     S = item['S']
     pre_ok, suf_ok = srcmodel.rebase_ok(S, nosp=bool(item['opts'].get('nosp')))
     return offrun.make(S, item['opts'], item['ml'], None, pre_ok, suf_ok,
@@ -80,7 +128,8 @@ def build(item):
 
 def run_item(item):
     prop, concrete = build(item)
-    return harness.run(prop, concrete, item, budget_s=harness.budget(item, 90))
+    return harness.run(prop, concrete, item, budget_s=harness.budget(item, 90),
+                       validate=(item['h'] == 'nums'))
 
 
 def replay(rep):
